@@ -64,6 +64,9 @@ type C14Params struct {
 	Sched SchedSpec  `json:"sched"`
 	Spec  MuxSpec    `json:"spec"`
 	WF    WriteFault `json:"write_fault"`
+	// Prior: another muxer history assembled first in the same world (pooled buffers
+	// and any state shared between Muxer values are then used, not fresh)
+	Prior *MuxSpec `json:"prior,omitempty"`
 }
 
 type propC14 struct{}
@@ -155,6 +158,11 @@ func (propC14) Gen(seed uint64, tier string, idx int) any {
 		}
 	}
 	p.Sched = SchedSpec{Seed: r.Next(), Policy: vsim.PolCanonical, Procs: 1}
+	if r.Pct(30) && idx%1500 != 7 {
+		pm := GenMuxSpec(r, 6)
+		p.Prior = &pm
+		p.Sched.RandomPools, p.Sched.PoolHitPct = true, 100
+	}
 	if r.Pct(30) {
 		// error at each of Assemble's Write calls in turn
 		p.WF = WriteFault{Kind: "err_on_write", At: r.Intn(14)}
@@ -337,7 +345,20 @@ func (propC14) Execute(pp any, x *X) *Violation {
 	wr := &SimWriter{Fault: p.WF}
 	var asmErr error
 	var viol *Violation
+	var priorBlobs []*frameBlob
+	if p.Prior != nil {
+		priorBlobs = make([]*frameBlob, len(p.Prior.Srcs))
+		for i, s := range p.Prior.Srcs {
+			priorBlobs[i] = blobFor(s)
+		}
+	}
 	w := x.Explore(p.Sched.Config(), func() {
+		if p.Prior != nil {
+			pm := mux.NewMuxer()
+			var pmd muxModel
+			applyCalls(*p.Prior, priorBlobs, pm, &pmd)
+			pm.Assemble(&SimWriter{})
+		}
 		m := mux.NewMuxer()
 		applyCalls(p.Spec, blobs, m, &md)
 		asmErr = m.Assemble(wr)
